@@ -576,6 +576,8 @@ class HTMLBinaryInputStream(HTMLUnicodeInputStream):
 
         if encoding is not None and encoding.name in ("utf-16be", "utf-16le"):
             encoding = lookupEncoding("utf-8")
+        elif encoding is not None and encoding.name == "x-user-defined":
+            encoding = lookupEncoding("windows-1252")
 
         return encoding
 
